@@ -138,6 +138,10 @@ func matchChunk(chunk, s string) (rest string, ok bool) {
 }
 
 func (p Pattern) MarshalJSON() ([]byte, error) {
+	if len(p.comps) == 0 {
+		// the JSON format requires at least one component: the empty pattern is the empty literal
+		return []byte(`[{"Literal":""}]`), nil
+	}
 	var buf bytes.Buffer
 	buf.WriteRune('[')
 	for i, comp := range p.comps {
